@@ -262,10 +262,21 @@ func genC19(r *rand.Rand, t *Trace, thorough bool) {
 		if r.Intn(2) == 0 {
 			cfg.VectorWeight = float64(r.Intn(5)) * 0.25
 			cfg.TextWeight = r.Float64() * 3
+			if r.Intn(4) == 0 { // boundary weights: exactly zero, negative, one
+				cfg.TextWeight = []float64{0, 0, -1, 1}[r.Intn(4)]
+			}
 			cfg.K = float64(1 + r.Intn(100))
 			if r.Intn(3) == 0 {
 				cfg.K = r.Float64()*10 + 0.001
 			}
+		}
+		if kz == 0 && r.Intn(3) == 0 { // weighted sum with a weight of exactly zero (ids must still come through)
+			if r.Intn(2) == 0 {
+				cfg.TextWeight = 0
+			} else {
+				cfg.VectorWeight = 0
+			}
+			t.Stat("fusion.zero_weight")
 		}
 		nv, nt := r.Intn(8), r.Intn(8)
 		if it%11 == 0 {
